@@ -576,6 +576,56 @@ func prApply(p *syncer.Proof, mu *prMut, env *prMutEnv) (string, int, bool) {
 		}
 		p.Entries = prCut(es, i, end, [][]byte{append([]byte{prEntryHash}, h[:]...)})
 		return desc("entries %d..%d -> hash %s", i, end-1, h.String()[:8]), i, true
+	case "embed":
+		// re-encode the internal entry in the non-compact node encoding, with the two child hashes (B=0: the hashes
+		// recomputed from the entries that follow; B=1: empty hashes) and, in version 1, the leaf child embedded
+		if !inRange || len(es[i]) == 0 || es[i][0] != prEntryFull {
+			return "", 0, false
+		}
+		nn, err := node.UnmarshalBinary(es[i][1:])
+		if err != nil {
+			return "", 0, false
+		}
+		in, ok := nn.(*node.InternalNode)
+		if !ok || in.Left != nil || in.Right != nil {
+			return "", 0, false
+		}
+		pos := i + 1
+		var lh, rh hash.Hash
+		good := true
+		if p.V != 0 {
+			lpos := pos
+			if pos, _, good = prSpan(es, pos, p.V, 1); !good {
+				return "", 0, false
+			}
+			if lpos < n && len(es[lpos]) > 1 && es[lpos][0] == prEntryFull {
+				if ln, lerr := node.UnmarshalBinary(es[lpos][1:]); lerr == nil {
+					if lf, isLeaf := ln.(*node.LeafNode); isLeaf {
+						in.LeafNode = &node.Pointer{Clean: true, Hash: lf.Hash, Node: lf}
+					}
+				}
+			}
+		}
+		if pos, lh, good = prSpan(es, pos, p.V, 1); !good {
+			return "", 0, false
+		}
+		if _, rh, good = prSpan(es, pos, p.V, 1); !good {
+			return "", 0, false
+		}
+		if mu.B != 0 {
+			lh.Empty()
+			rh.Empty()
+		}
+		in.Left = &node.Pointer{Clean: true, Hash: lh}
+		in.Right = &node.Pointer{Clean: true, Hash: rh}
+		data, err := in.MarshalBinary()
+		if err != nil {
+			return "", 0, false
+		}
+		out := append([][]byte{}, es...)
+		out[i] = append([]byte{prEntryFull}, data...)
+		p.Entries = out
+		return desc("entry %d non-compact with child hashes %s %s", i, lh.String()[:8], rh.String()[:8]), i, true
 	case "nilhash":
 		if !inRange || es[i] != nil {
 			return "", 0, false
